@@ -395,6 +395,32 @@ int main(int argc, char **argv)
             }
     }
     {
+        // column counts around the integer constants that appear in the library source (block sizes, thresholds;
+        // passed by the driver, see lib/mine.py) and their small multiples: a chunked row copy is probed on both sides
+        std::set<u64> cs_;
+        for (u64 L : culist(args.kv, "lits"))
+            for (u64 m : {1ULL, 2ULL, 3ULL})
+                for (long long d : {-1LL, 0LL, 1LL})
+                {
+                    long long v = (long long)(L * m) + d;
+                    if (v >= 20 && v <= 2100) cs_.insert((u64)v);
+                }
+        int mode = which == "C03" ? M_NTT : which == "C04" ? M_INTT : M_EXT;
+        long long added = 0;
+        for (u64 ncols : cs_)
+            for (u64 n : {8ULL, 16ULL})
+                for (u64 ph : {2ULL, 3ULL, 4ULL})
+                    for (u64 bl : {1ULL, 2ULL})
+                        for (int dst = 0; dst < 3; dst++)
+                        {
+                            if (n == 16 && (ph == 3 || bl == 2)) continue;
+                            if (mode == M_EXT) { if (dst == 2) continue; cases.push_back({M_EXT, n / 2, n / 2, n, ncols, ph, bl, 0, dst, 3, 0}); }
+                            else cases.push_back({mode, n, n, 0, ncols, ph, bl, 0, dst, 3, 0});
+                            added++;
+                        }
+        rep().stat("cases_from_mined_literals", added);
+    }
+    {
         // large sizes
         std::vector<u64> big = th ? std::vector<u64>{2048, 8192, 16384, 65536, 262144, 1048576} : std::vector<u64>{8192, 16384, 65536};
         int mode = which == "C03" ? M_NTT : which == "C04" ? M_INTT : M_EXT;
